@@ -217,7 +217,7 @@ def instances(tier):
                           N("L", "ILoad", "C", phases=["a", "b"], only=()), N("L2", "PLoad", "S", phases=["a"], only=("pwrs",)),
                           N("L3", "RLoad", "S", phases=["b"], only=()), N("L4", "ILoad", "S", phases=["b"], only=("iis",)), phases=["a", "b"]),
         "two-src": S(N("S1", "Source", only=()), N("L1", "ILoad", "S1", only=()), N("S2", "Source", only=()), N("G", "LinReg", "S2", only=("vdrop",), limits={"vo": [-1.0, -20.0], "tp": [-40.0, 85.0]}),
-                     N("L2", "ILoad", "G", only=(), limits={"vi": [-0.5, -30.0]})),
+                     N("L2", "ILoad", "G", only=(), limits={"vi": [-0.5, -30.0], "pi": [2.0e3, -1.0e-3]})),  # (a pair given larger magnitude first stays as given)
         "mux": S(N("S1", "Source", pol="nonneg", only=()), N("S2", "Source", only=()), N("M", "PMux", ["S1", "S2"], only=("rs",)), N("L", "ILoad", "M", only=())),
     }
     names = ["rail_rep", "params", "limits", "phases", "tree", "save", "batt_life", "solve_phase", "solve_energy", "solve"]
